@@ -77,7 +77,20 @@ def unused_params(fi: FuncInfo) -> List[str]:
     return []
   if any('abstractmethod' in txt(d) or 'overload' in txt(d) for d in node.decorator_list):
     return []
-  names = {x.id for st in node.body for x in ast.walk(st) if isinstance(x, ast.Name)}
+  # reads inside a statement that only normalises the parameter itself (p = p or {} / p = tuple(p) / if p is None: p = d) do not
+  # count: the normalised value still has to reach something
+  own_rebinds = set()
+  for st in ast.walk(node):
+    if isinstance(st, ast.Assign) and len(st.targets) == 1 and isinstance(st.targets[0], ast.Name):
+      for x in ast.walk(st.value):
+        if isinstance(x, ast.Name) and x.id == st.targets[0].id:
+          own_rebinds.add(id(x))
+    elif isinstance(st, ast.If) and isinstance(st.test, ast.Compare) and isinstance(st.test.left, ast.Name) and all(
+        isinstance(b, ast.Assign) and len(b.targets) == 1 and isinstance(b.targets[0], ast.Name) and b.targets[0].id == st.test.left.id
+        for b in st.body) and not st.orelse:
+      own_rebinds.add(id(st.test.left))
+  names = {x.id for st in node.body for x in ast.walk(st) if isinstance(x, ast.Name) and isinstance(x.ctx, (ast.Load, ast.Del)) and id(x) not in own_rebinds}
+  names |= {n for st in ast.walk(node) if isinstance(st, (ast.Global, ast.Nonlocal)) for n in st.names}
   out = []
   for p in _params(fi):
     if p in ('self', 'cls') or p.startswith('_') or p in PROTOCOL_UNUSED.get(node.name, ()):
@@ -129,6 +142,12 @@ def missing_same_name(ff: FuncFlow) -> List[Tuple[ast.Call, FuncInfo, str]]:
     held |= set(_params(m.funcs_by_node[sc.node]))
     sc = sc.parent
   held -= {'self', 'cls'}
+  # a local (of this function or of the functions it is nested in) that is computed and then never read anywhere is held too: the
+  # value was prepared for somebody (`num_classes = 10 if only_digits else 62` ... `Module()` called without it)
+  sc = fi.scope
+  while sc is not None and sc.kind == 'function':
+    held |= _dead_locals(sc.node)
+    sc = sc.parent
   out = []
   for _, c in ff.calls():
     if any(isinstance(a, ast.Starred) for a in c.args) or any(k.arg is None for k in c.keywords):
@@ -157,6 +176,19 @@ def missing_same_name(ff: FuncFlow) -> List[Tuple[ast.Call, FuncInfo, str]]:
           continue
         out.append((c, g, p))
   return out
+
+
+def _dead_locals(fn: ast.AST) -> Set[str]:
+  """Names bound by a plain assignment in `fn` (or its nested functions) and never loaded anywhere inside `fn`."""
+  loads: Set[str] = set()
+  stores: Set[str] = set()
+  for n in ast.walk(fn):
+    if isinstance(n, ast.Name):
+      (loads if isinstance(n.ctx, ast.Load) else stores).add(n.id)
+    elif isinstance(n, (ast.Global, ast.Nonlocal)):
+      loads.update(n.names)
+  plain = {n.targets[0].id for n in ast.walk(fn) if isinstance(n, ast.Assign) and len(n.targets) == 1 and isinstance(n.targets[0], ast.Name)}
+  return {x for x in plain if x not in loads and not x.startswith('_')}
 
 
 def _has_kw_default(g: FuncInfo, p: str) -> bool:
@@ -228,7 +260,7 @@ SCOPES: Dict[str, List[Tuple[str, str, Optional[Set[str]]]]] = {
     'C01': [(A + 'fed_avg.py', r'.*', None), ('fedjax/core/optimizers.py', r'.*', None),
             (CDS, r'(ShuffleRepeatBatch.*|ClientDataset\.shuffle_repeat_batch)', None),
             ('fedjax/core/tree_util.py', r'(tree_mean|tree_weight|tree_inverse_weight|tree_add|tree_sub|_tree.*)', None),
-            ('fedjax/core/for_each_client.py', r'.*', None), ('fedjax/core/models.py', r'(grad|model_grad|model_per_example_loss)(\..*)?', None)],
+            ('fedjax/core/for_each_client.py', r'.*', None), ('fedjax/core/models.py', r'(grad|model_grad|model_per_example_loss|create_model_from_haiku|create_model_from_stax)(\..*)?', None)],
     'C02': [('fedjax/core/for_each_client.py', r'.*', None)],
     'C03': [(CDS, r'(BatchView|PaddedBatchView|BatchHParams|PaddedBatchHParams|ClientDataset\.(batch|padded_batch|__getitem__)|pad_examples|'
                   r'_pick_final_batch_size|attach_mask|slice_examples|BatchPreprocessor).*', None)],
